@@ -216,6 +216,21 @@ func EnumPDFTokens(img []byte) []Fault {
 			out = append(out, Fault{Layer: "token", Kind: "replace", A: int64(i), B: 2, S: ">"}, Fault{Layer: "token", Kind: "replace", A: int64(i), B: 2, S: ""},
 				Fault{Layer: "token", Kind: "replace", A: int64(i), B: 2, S: "<<"}, Fault{Layer: "token", Kind: "replace", A: int64(i), B: 2, S: ">>>>"})
 			i += 2
+		case c == '<' && i+1 < n && isHex(img[i+1]):
+			// hex string: extreme values besides the delimiter damage below
+			j := i + 1
+			for j < n && (isHex(img[j]) || img[j] == ' ') {
+				j++
+			}
+			if j < n && img[j] == '>' {
+				for _, hv := range []string{"<FFFFFFFF>", "<>", "<FFFFFFFFFFFFFFFF>", "<0>", "<FFFF>", "<00000000>"} {
+					out = append(out, Fault{Layer: "token", Kind: "replace", A: int64(i), B: int64(j + 1 - i), S: hv})
+				}
+				out = append(out, Fault{Layer: "token", Kind: "replace", A: int64(i), B: 1, S: ""})
+				i = j + 1
+			} else {
+				i++
+			}
 		case c == '[' || c == ']' || c == '(' || c == ')' || c == '<' || c == '>':
 			partner := map[byte]string{'[': "]", ']': "[", '(': ")", ')': "(", '<': ">", '>': "<"}[c]
 			out = append(out, Fault{Layer: "token", Kind: "replace", A: int64(i), B: 1, S: ""}, Fault{Layer: "token", Kind: "replace", A: int64(i), B: 1, S: partner},
@@ -245,6 +260,10 @@ func EnumPDFTokens(img []byte) []Fault {
 		}
 	}
 	return out
+}
+
+func isHex(c byte) bool {
+	return c >= '0' && c <= '9' || c >= 'a' && c <= 'f' || c >= 'A' && c <= 'F'
 }
 
 func isAlpha(c byte) bool { return c >= 'a' && c <= 'z' || c >= 'A' && c <= 'Z' }
